@@ -167,6 +167,23 @@ Definition well_addressed (y : delivery) : bool :=
   | _, _ => false
   end.
 
+(* finding C06-F3 (open): the guard of c06_delivery.  The Response answers outstanding request i and an
+   assertion that arrives ENCRYPTED carries both a confirmation that answers i and one whose data does
+   not (another request, an unknown one, no InResponseTo): the code uses the first and drops the second,
+   where the same assertion in clear is refused *)
+Definition sc_answers (i : string) (s : scd) : bool := match s with Data d => answers i d | NoData => false end.
+Definition sc_strays (i : string) (s : scd) : bool := match s with Data d => negb (answers i d) | NoData => false end.
+
+Definition partial_match (y : delivery) : bool :=
+  match answered (resp y) with
+  | Some i =>
+      existsb (fun a => match subject a with
+                        | Some scs => existsb (sc_answers i) scs && existsb (sc_strays i) scs
+                        | None => false
+                        end) (snd (split_sealed (sealed y) (assertions (resp y))))
+  | None => false
+  end.
+
 Definition spec_d (y : delivery) (v : verdict) : Prop :=
   (browser (via y) = true -> correlated (resp y) v)
   /\ status_respected (resp y) v /\ shape_respected (resp y) v
